@@ -186,6 +186,15 @@ def build_events():
     ev["config_set"] = lambda: _inspect(UBXMessage.config_set(1, 0, [("CFG_UART1_BAUDRATE", 9600), (0x40530001, 115200)]))
     ev["config_del"] = lambda: _inspect(UBXMessage.config_del(2, 1, ["CFG_UART1_BAUDRATE", 0x40530001]))
     ev["config_poll"] = lambda: _inspect(UBXMessage.config_poll(0, 0, ["CFG_UART1_BAUDRATE", 0x40530001]))
+    def _mutate_nominal_list():
+        m = UBXMessage("MON", "MON-SPAN", GET, version=0, numRfBlocks=1)
+        lst = m.spectrum_01  # a list attribute: the message is immutable, the list object is not
+        lst[0] = 7
+        lst[-1] = 9
+        return "mutated a list attribute of a default-built message"
+
+    ev["user_mutates_list_attribute"] = _mutate_nominal_list
+    CLSID_OF["x:user_mutates_list_attribute"] = "0a31"
     ev["null_payload"] = lambda: _inspect(UBXMessage("CFG", "CFG-MSG", POLL))
     ev["unknown_get"] = lambda: _inspect(UBXReader.parse(ref.frame(0x99, 0x88, b"abc")))
     # helpers
@@ -374,6 +383,7 @@ def same_clsid_pairs():
             cid = CLSID_OF.get(lab)
             if cid:
                 groups.setdefault(cid, []).append(n)
+    groups.setdefault("0a31", []).append("user_mutates_list_attribute")
     out = []
     for cid, ns in sorted(groups.items()):
         for a in ns:
